@@ -42,8 +42,8 @@ CHECKS = {
          "Runtime monitoring of every execution in an enumerated domain: quick = class table + strided/random bit patterns, thorough = all 2^32 float32 per number kind through Encoder+Decoder, all decoder short forms, naturals through the verif hook. Oracles: exact when representable, <= 4 ulp otherwise, minimal length, re-encode stable, nearest 1/64, truncated => error.",
          "Trusted: the independent reference codec (ref.Numbers, exact rational arithmetic). The 4-byte natural branch is only reachable through the verif hook encode.VerifEncodeNatural.",
          "4 C08"),
- "C09": ("sweep of colours through Encoder+Decoder and of the decoder's colour forms vs independent tables; blend formula over (t,c0,c1)",
-         "Runtime monitoring over enumerated colour domains: written colour == delivered colour for RGBA grids / all 2^32 (thorough), every 1- and 2-byte pattern, 3-byte direct, blends; suggested palettes of every format mix; blend arithmetic against the formula on operands resolved by the reference VM.",
+ "C09": ("sweep of colours through Encoder+Decoder and of the decoder's colour forms vs independent tables; blend formula over (t,c0,c1); paint snapshots at raster.Draw vs the reference machine for register chains in a Renderer",
+         "Runtime monitoring over enumerated colour domains: written colour == delivered colour for RGBA grids / all 2^32 (thorough), every 1- and 2-byte pattern, 3-byte direct, blends; suggested palettes of every format mix; blend arithmetic against the formula on operands resolved by the reference VM; chains of stores into a real Renderer's registers (any value, later blends naming them, a second graphic with the same palette) judged on the flat colour handed to Draw.",
          "Trusted: ref colour tables written from the specification.",
          "4 C09"),
  "C10": ("online specification automaton stepped after every call; bounded-exhaustive histories over an abstract alphabet",
